@@ -32,7 +32,6 @@ STRUCTS = {
     "two_rules": {"R": ["a", "b"], "S": ["c", "d", "e"]},
     "nested_f6": {"Root": ["A", "Z", "B", "Sub"], "Sub": ["S1", "S2"]},
     "nested_3": {"Root": ["A", "Mid"], "Mid": ["M1", "Low"], "Low": ["L1", "L2"]},
-    "one_rule_5": {"R": ["a", "b", "c", "d", "e"]},
 }
 
 
@@ -266,10 +265,10 @@ def obligations(tier: str):
     T = tier == "thorough"
     obs = []
     for st in STRUCTS:
-        if st in ("one_rule_4", "one_rule_5", "nested_3") and not T:
+        if st in ("one_rule_4", "nested_3") and not T:
             continue
         for mk in masks(st, every_subset=T):
-            obs.append(Ob("update_weights", {"struct": st, "mask": mk, "timeout_ms": 120000 if T else 30000}, name=f"engineB_update_weights_{st}_{mk}", kind="smt", timeout=900 if T else 150, twin=False, smoke=0))
+            obs.append(Ob("update_weights", {"struct": st, "mask": mk, "timeout_ms": 120000 if T else 30000}, name=f"engineB_update_weights_{st}_{mk}", kind="smt", timeout=300 if T else 150, twin=False, smoke=0))
     obs.append(Ob("repeat_extraction", {}, name="concrete_f6_repeated_extraction", timeout=60, smoke=1))
     obs.append(Ob("pt_choice", {"fixture": "f6", "D": 6 if T else 3}, name="pt_decider_choice_f6"))
     obs.append(Ob("pt_choice", {"fixture": "f6", "grammar_fn": "grammar_zero_first", "D": 6 if T else 3}, name="pt_decider_choice_f6_zero_weight_first"))
